@@ -717,6 +717,9 @@ static const struct { int dir; int start_ms; int dur_ms; int kind; } BURSTS[] = 
 	{ 1, 2100, 8000, BK_DUPNEWID }, { 3, 2100, 25000, BK_DUPNEWID },
 	{ 1, 2100, 8000, BK_REORDER }, { 2, 2100, 8000, BK_REORDER }, { 3, 2100, 25000, BK_REORDER }, { 3, 2540, 8000, BK_REORDER },
 	{ 1, 2100, 8000, BK_LATE5S }, { 2, 2100, 8000, BK_LATE5S }, { 3, 2100, 25000, BK_LATE5S }, { 3, 2540, 8000, BK_LATE5S },
+	/* outages that begin with the tunnel phase itself: the client's 'receiving too few answers' fallbacks (interval 1, then
+	 * lazy mode off) only look at its first hundred queries (seeded C02-i: the fallback re-entering itself) */
+	{ 2, 0, 20000 }, { 2, 0, 31000 }, { 2, 0, 40000 }, { 3, 0, 40000 }, { 1, 0, 31000 },
 };
 #define NBURSTS ((int)(sizeof BURSTS / sizeof BURSTS[0]))
 
